@@ -3,8 +3,8 @@ import PbVerif.Lemmas.MsgAlgInit
 import PbVerif.Lemmas.MsgInv
 /-
 (c) the `initialized` flag computed while decoding is sound: when it is set, the decoded message is
-initialized — with the AND rule of fixes/map-message-init-and.diff for every schema, with the OR rule
-of the code as it is for schemas without message-valued maps.  Core-only.
+initialized — with the AND rule of the current code (/repo 6c2b514) for every schema, with the OR rule
+of the old code (before /repo 6c2b514) for schemas without message-valued maps.  Core-only.
 -/
 namespace FastInit
 open Pb
